@@ -122,3 +122,44 @@ PROPS["C13"] = pbt(
     floors={"kind_missing_bracket": 0.12, "kind_text_after_section": 0.12, "kind_empty_section_name": 0.12,
             "kind_missing_delimiter": 0.04, "not_first_line": 0.30, "tree_member": 0.20, "in_dropin": 0.10},
 )
+
+PROPS["C06"] = pbt(
+    "pbt_c06", "pbt_c06.cpp", level="fault_enumeration",
+    rule=("trees of C01 (<=6 consulted files) x the four callback entry points (readFileWithCallback on a single "
+          "consulted file, readDirsWithCallback / readDirsHistoryWithCallback on two-directory trees, "
+          "readConfigWithCallback on all) x {no rejection, EVERY singleton rejection set, two random larger sets} x "
+          "a generated callback-data pointer. Every consulted file initially holds decoy content which the callback "
+          "replaces by the real content when it accepts the path, so content used before the check or despite a "
+          "rejection shows up as DECOY keys. evaluations = guarded reads; non-trivial = tree with >=2 consulted "
+          "files; distinct = (tree shape, entry point)"),
+    technique="fault enumeration over generated trees: reject each consulted file in turn; decoy-content swap inside the callback; rapidcheck",
+    level_text=("every consulted file of every generated tree is rejected in turn (plus the empty and two larger "
+                "sets); the callback log must be the prefix of the modelled consultation order up to the first "
+                "rejection, the data pointer must arrive unchanged, no decoy content may be visible, and a rejection "
+                "must yield the callback-failed code and no configuration/history."),
+    level_note="trusts the lookup model; a key-less object left by the two-directory entry points after a failure is accepted (see DESIGN C06)",
+    quick={"cases": 8000},
+    thorough={"cases": 200000},
+    floors={"with_rejection": 0.50, "rejected_not_first": 0.25, "rejected_masked": 0.03,
+            "ep_readDirsWithCallback": 0.12, "ep_readDirsHistoryWithCallback": 0.12, "ep_readFileWithCallback": 0.08},
+)
+
+PROPS["C12"] = pbt(
+    "pbt_c12", "pbt_c12.cpp",
+    rule=("two-layer trees (econf_readDirs, ...WithCallback, econf_readConfig and ...WithCallback configured with "
+          "PARSING_DIRS=<d1>:<d2>, econf_readDirsHistory and ...WithCallback) and three-layer trees (default scheme "
+          "under ROOT_PREFIX vs. explicit PARSING_DIRS, with and without callback) x suffix spellings x NULL/empty "
+          "directory arguments x process-wide postfix list. Oracle: identical return codes and key/value dumps; "
+          "history members = modelled consulted files in order, each with its own path and the content of an "
+          "independent econf_readFile (and of the generated file); left fold of the members with the public "
+          "econf_mergeFiles, skipping members with a later namesake, equals the econf_readDirs result. "
+          "non-trivial = >=2 consulted files; distinct = tree shape + parameter shape"),
+    technique="property-based differential testing between six entry points + replayed history fold, rapidcheck",
+    level_text=("differential oracle between the public entry points on generated trees plus an independent "
+                "reconstruction of the result from the history with the public merge. 8k (quick) / 200k (thorough) "
+                "trees, 4-8 reads each."),
+    level_note="trusts the lookup model for the expected member list; entry points are compared with each other, not with a model",
+    quick={"cases": 8000},
+    thorough={"cases": 200000},
+    floors={"masked_member": 0.06, "null_or_empty_dir_arg": 0.05, "global_postfix_list": 0.08, "three_layers": 0.25},
+)
